@@ -156,12 +156,15 @@ func (do *ObjectContainer) CloneFor(other ILocatorCloner) {
 	do.mu.RLock()
 	defer do.mu.RUnlock()
 
-	cloneItemAwareMap(do.dataObjectsByName, &out.dataObjectsByName)
-	cloneItemAwareMap(do.dataObjects, &out.dataObjects)
-	cloneItemAwareMap(do.dataObjectReferencesByName, &out.dataObjectReferencesByName)
-	cloneItemAwareMap(do.dataObjectReferences, &out.dataObjectReferences)
-	cloneItemAwareMap(do.propertiesByName, &out.propertiesByName)
-	cloneItemAwareMap(do.properties, &out.properties)
+	// a data object is registered under its name, its id and its references: in the copy it
+	// has to remain ONE item-aware, otherwise a value written by name is not seen by id
+	clones := map[IItemAware]IItemAware{}
+	cloneItemAwareMap(do.dataObjectsByName, &out.dataObjectsByName, clones)
+	cloneItemAwareMap(do.dataObjects, &out.dataObjects, clones)
+	cloneItemAwareMap(do.dataObjectReferencesByName, &out.dataObjectReferencesByName, clones)
+	cloneItemAwareMap(do.dataObjectReferences, &out.dataObjectReferences, clones)
+	cloneItemAwareMap(do.propertiesByName, &out.propertiesByName, clones)
+	cloneItemAwareMap(do.properties, &out.properties, clones)
 }
 
 type HeaderContainer struct {
@@ -205,7 +208,7 @@ func (h *HeaderContainer) CloneFor(other ILocatorCloner) {
 		return
 	}
 
-	cloneItemAwareMap(h.items, &out.items)
+	cloneItemAwareMap(h.items, &out.items, map[IItemAware]IItemAware{})
 }
 
 type PropertyContainer struct {
@@ -266,7 +269,7 @@ func (p *PropertyContainer) CloneFor(other ILocatorCloner) {
 	out.mu.Lock()
 	defer out.mu.Unlock()
 
-	cloneItemAwareMap(p.items, &out.items)
+	cloneItemAwareMap(p.items, &out.items, map[IItemAware]IItemAware{})
 }
 
 type FlowDataLocator struct {
@@ -524,8 +527,12 @@ func (f *FlowDataLocator) ApplyTo(target any) error {
 	return json.Unmarshal(data, &target)
 }
 
-func cloneItemAwareMap(in map[string]IItemAware, out *map[string]IItemAware) {
+func cloneItemAwareMap(in map[string]IItemAware, out *map[string]IItemAware, clones map[IItemAware]IItemAware) {
 	for name, item := range in {
+		if clone, done := clones[item]; done {
+			(*out)[name] = clone
+			continue
+		}
 		outMap, ok := (*out)[name]
 		if !ok {
 			outMap = NewContainer(nil)
@@ -536,5 +543,6 @@ func cloneItemAwareMap(in map[string]IItemAware, out *map[string]IItemAware) {
 		if ok1 && ok2 {
 			impl1.CloneFor(impl2)
 		}
+		clones[item] = outMap
 	}
 }
